@@ -617,6 +617,33 @@ func (e *Env) call(ex *ECall) Value {
 		case "box":
 			v := e.eval(ex.Args[0])
 			return x.makeIface(v, v.Typ, types.NewInterfaceType(nil, nil))
+		case "fieldptr":
+			pv := e.eval(ex.Args[0])
+			fname := exprText(ex.Args[1])
+			pt, ok := types.Unalias(pv.Typ).Underlying().(*types.Pointer)
+			if !ok {
+				e.errf("fieldptr needs a pointer")
+			}
+			stt, ok := types.Unalias(pt.Elem()).Underlying().(*types.Struct)
+			if !ok {
+				e.errf("fieldptr needs a pointer to struct")
+			}
+			idx, path := findField(stt, fname)
+			if idx < 0 || len(path) != 1 {
+				e.errf("fieldptr: no direct field %s", fname)
+			}
+			var steps []Step
+			base := pv.Term
+			var cell *ssa.Alloc
+			frame := 0
+			if pv.Ptr != nil {
+				steps = append(steps, pv.Ptr.Steps...)
+				base = pv.Ptr.Base
+				cell, frame = pv.Ptr.Cell, pv.Ptr.Frame
+			}
+			steps = append(steps, Step{Field: idx, Struct: pt.Elem(), St: stt})
+			ft := stt.Field(idx).Type()
+			return Value{Typ: types.NewPointer(ft), Sort: SInt, Ptr: &Pointer{Cell: cell, Frame: frame, Base: base, Steps: steps, Elem: ft}}
 		case "elemptr":
 			sl := e.eval(ex.Args[0])
 			k := e.eval(ex.Args[1])
